@@ -166,6 +166,21 @@ pub fn squeeze_twin(src: &str, d: &Dumper, r: &mut Rng, stats: &mut Out) -> Stri
     rebuild(src, d, &mut gapf, &mut id)
 }
 
+/// a twin that removes the indentation of lines (gaps that contain a line break and no comment keep their line breaks only),
+/// or — `indent` — gives every such line a fixed deep indentation
+pub fn reindent_twin(src: &str, d: &Dumper, indent: bool, stats: &mut Out) -> String {
+    let mut id = |_: usize, s: &str| s.to_owned();
+    let mut gapf = |i: usize, g: &str| -> String {
+        if i == 0 || !g.contains('\n') || g.contains("--") {
+            return g.to_owned();
+        }
+        stats.bump(if indent { "reindent_line_indented" } else { "reindent_line_dedented" });
+        let cut = g.rfind('\n').unwrap() + 1;
+        if indent { format!("{}\t    \t", &g[..cut]) } else { g[..cut].to_owned() }
+    };
+    rebuild(src, d, &mut gapf, &mut id)
+}
+
 /// deterministic twins: an ordinary comment is put between every existing comment and the token that follows it
 /// (`same_line`: `… --[[ c ]] token`; otherwise a comment line of its own) — e.g. between a filter comment and its code
 pub fn comment_after_comments_twin(src: &str, d: &Dumper, same_line: bool, stats: &mut Out) -> String {
@@ -492,14 +507,16 @@ pub fn run(args: &Args, out: &mut Out, kind: &str) {
             }
         };
         let reps = if origin.starts_with("corpus") { 12 } else { 2 };
-        for rep_i in 0..reps + 4 {
+        for rep_i in 0..reps + 6 {
             if rep_i >= reps && rep_i < reps + 2 && !((kind == "c13" || kind == "c13r") && src.contains("--")) {
                 continue;
             }
             if rep_i >= reps + 2 && !(kind == "c13" || kind == "c13r") {
                 continue;
             }
-            let (twin_src, back) = if rep_i >= reps + 2 {
+            let (twin_src, back) = if rep_i >= reps + 4 {
+                (reindent_twin(&src, &d, rep_i == reps + 4, out), HashMap::new())
+            } else if rep_i >= reps + 2 {
                 (squeeze_twin(&src, &d, &mut rng, out), HashMap::new())
             } else if rep_i >= reps {
                 (comment_after_comments_twin(&src, &d, rep_i == reps, out), HashMap::new())
